@@ -2782,9 +2782,13 @@ func (a *Agent) handlePeerDisconnect(conn *peer.Connection, err error) {
 	a.routeMgr.HandlePeerDisconnectAgent(peerID)
 }
 
-// cleanupRelaysForPeer removes all relay entries involving the specified peer.
+// cleanupRelaysForPeer removes all relay entries involving the specified peer
+// from the TCP, UDP and ICMP relay tables.
 func (a *Agent) cleanupRelaysForPeer(peerID identity.AgentID) {
-	if cleaned := a.tcpRelay.DeleteByPeer(peerID); cleaned > 0 {
+	cleaned := a.tcpRelay.DeleteByPeer(peerID)
+	cleaned += a.udpRelay.DeleteByPeer(peerID)
+	cleaned += a.icmpRelay.DeleteByPeer(peerID)
+	if cleaned > 0 {
 		a.logger.Debug("cleaned up relay streams",
 			logging.KeyPeerID, peerID.ShortString(),
 			logging.KeyCount, cleaned)
